@@ -1994,6 +1994,24 @@ func (c *Cache) additionalAnswer(ctx context.Context, msg *dns.Msg) *dns.Msg {
 			middleware.MarkRequestLocalFailureResponse(ctx, out, err)
 			return out
 		}
+		if err == nil && respCname != nil && respCname.Rcode == dns.RcodeServerFailure {
+			// The target's own resolution failed (validation, unreachable
+			// servers, a cached failure): the chain cannot be completed.
+			// Handing back the alias alone would tell the client NOERROR —
+			// with AD when the alias validated — about a name whose lookup
+			// failed, and a consumer that reads "no record of the type" as
+			// absence (DNS64) would synthesise over a validation failure.
+			// The failure is the answer, with the reason the target gave.
+			do := false
+			if opt := msg.IsEdns0(); opt != nil {
+				do = opt.Do()
+			}
+			out := dnsutil.SetRcode(msg, dns.RcodeServerFailure, do)
+			if ede := dnsutil.GetEDE(respCname); ede != nil {
+				dnsutil.SetEDE(out, ede.InfoCode, ede.ExtraText)
+			}
+			return out
+		}
 		if err == nil && (len(respCname.Answer) > 0 || len(respCname.Ns) > 0) {
 			target, child = searchAdditionalAnswer(msg, respCname)
 			// The sub-query's records are now part of the outer answer, so
